@@ -51,8 +51,9 @@ SPEC = dict(
         ),
         thorough=(
             "all 21 297 {-1,0,1} matrices up to 3x3: every B_n orbit completely and Givens / Householder / zero-column insertion on every "
-            "matrix, all aggregators (on 3x3: two-column insertion of MGDA / CAGrad on the 560 B_3-orbit representatives, and the direct "
-            "transformations with one configuration per aggregator class plus ConFIG / AlignedMTL with a preference vector); all 6 561 2x4 "
+            "matrix, all aggregators - except on 3x3, where every matrix gets Givens / Householder / single zero-column insertion for the fast "
+            "aggregators (one configuration per class plus ConFIG / AlignedMTL with a preference vector) and the 560 B_3-orbit representatives "
+            "get the full transformation list (incl. two-column insertions) for all aggregators incl. MGDA / CAGrad; all 6 561 2x4 "
             "matrices under S_4; D(seed) and dense2(seed), 8 matrices each, m in 2..5, n in 2..4"
         ),
     ),
@@ -151,11 +152,13 @@ def gen_cases(tier, seed):
             for blk in _blocks(reps, max(1, 48 // gsize)):
                 cases.append(dict(kind="orbit", m=m, n=n, reps=blk, aggs="all", seed=seed))
             if (m, n) == (3, 3):
-                # two-column insertions of the two slow aggregators: on the B_3-orbit representatives (stated bound)
-                for lo in range(0, N, 6):
-                    cases.append(dict(kind="direct", m=m, n=n, idx=list(range(lo, min(N, lo + 6))), aggs="all", seed=seed, thin="slow-2col"))
-                for blk in _blocks(reps, 8):
-                    cases.append(dict(kind="direct", m=m, n=n, idx=blk, aggs="slow", seed=seed, only="2col"))
+                # 3x3 (19 683 matrices, 25 direct transformations each): the fast aggregators see the inexact transformations and
+                # the single zero-column insertions on EVERY matrix; MGDA / CAGrad (4-11 ms per call) and the two-column
+                # insertions run on the 560 B_3-orbit representatives with the full transformation list (stated bound)
+                for lo in range(0, N, 8):
+                    cases.append(dict(kind="direct", m=m, n=n, idx=list(range(lo, min(N, lo + 8))), aggs="fast", seed=seed, thin="no-2col"))
+                for blk in _blocks(reps, 3):
+                    cases.append(dict(kind="direct", m=m, n=n, idx=blk, aggs="all", seed=seed))
             else:
                 for lo in range(0, N, 12):
                     cases.append(dict(kind="direct", m=m, n=n, idx=list(range(lo, min(N, lo + 12))), aggs="all", seed=seed))
@@ -421,7 +424,7 @@ def _direct_transforms(n, with_group):
     return out
 
 
-def run_direct(J, cfgs, ctx, with_group, thin=None, only=None):
+def run_direct(J, cfgs, ctx, with_group, thin=None):
     m, n = J.shape
     pred = Pred(J)
     bases = {}
@@ -435,14 +438,14 @@ def run_direct(J, cfgs, ctx, with_group, thin=None, only=None):
         else:
             J2 = K.apply_cols(J, payload[0], payload[1])
         two_col = kind == "cols" and len(payload[0]) == n + 2
-        if only == "2col" and not two_col:
+        if thin == "no-2col" and two_col:
             continue
         moved = J2.shape != J.shape or bool(np.any(J2 != J))
         # a zero-column insertion "moves" the matrix by definition; what matters is that the old coordinates keep their value
         for cfg in cfgs:
             name = cfg["name"]
             base = bases.get(K.cfg_key(cfg))
-            if base is None or (thin == "slow-2col" and two_col and name in SLOW):
+            if base is None:
                 continue
             if kind == "Q":
                 if name not in K.GRAMIAN_BASED:
@@ -481,7 +484,7 @@ def run_case(case):
     elif kind == "direct":
         m, n = case["m"], case["n"]
         cfgs = configs(m, n, case["aggs"])
-        if case.get("thin") == "slow-2col":
+        if case.get("thin") == "no-2col":
             # 3x3 thorough, inexact transformations + zero columns: one configuration per aggregator class, plus the
             # preference-carrying ones of the pinv/eigh based ConFIG / AlignedMTL (all variants run on the 3x3 orbits)
             drop = {"UPGrad|p", "DualProj|p", "PCGrad|sched=rev", "GradDrop|U=" + str(U2[:n])}
@@ -491,8 +494,8 @@ def run_case(case):
             J = A.ternary_index(m, n, idx)
             if case.get("rowscale"):
                 J = J * np.array(ROWSCALE[:m])[:, None]
-            run_direct(J, cfgs, ctx, with_group=False, thin=case.get("thin"), only=case.get("only"))
-            if case["aggs"] in ("slow", "all") and (m, n) in ((2, 2), (2, 3)) and not case.get("only") and not case.get("rowscale"):
+            run_direct(J, cfgs, ctx, with_group=False, thin=case.get("thin"))
+            if case["aggs"] in ("slow", "all") and (m, n) in ((2, 2), (2, 3)) and not case.get("rowscale"):
                 if canon is None:
                     canon = set(orbit_reps(m, n, rows=True))
                 if idx in canon:
